@@ -35,7 +35,8 @@ ANCHORS = ['cli:UpdateCommand.__call__', 'verify:update_entry_for_path',
            'recursiveloader:ManifestRecursiveLoader.find_timestamp',
            'recursiveloader:ManifestRecursiveLoader.set_timestamp']
 REQUIRED = ['cli:UpdateCommand.__call__', 'rounds_compared', 'timestamps_checked',
-            'inject_runs', 'inject_right_after_read', 'tz:XXX8', 'tz:XXX-8', 'tz:CET-1CEST,M3.5.0,M10.5.0/3']
+            'inject_runs', 'inject_right_after_read', 'multi_tree_incremental_runs',
+            'tz:XXX8', 'tz:XXX-8', 'tz:CET-1CEST,M3.5.0,M10.5.0/3']
 ASSUMPTIONS = ['timezones are sampled (POSIX TZ strings without DST)',
                'the system clock does not step during a run']
 
@@ -54,6 +55,8 @@ def units(tier, seed):
     u = [{'k': 'hist', 'i': i, 'n': PER_UNIT} for i in range(N[tier] // PER_UNIT)]
     for i in range(20 if tier == 'quick' else 400):
         u.append({'k': 'inject', 'i': i})
+    for i in range(10 if tier == 'quick' else 60):
+        u.append({'k': 'multi', 'i': i})
     return u
 
 
@@ -624,13 +627,90 @@ def run_inject(u, ctx):
     ctx.sample(case, 'inject')
 
 
+def exec_multi(ctx, case):
+    """`gemato update --incremental A B ..`: every tree is compared with its OWN
+    previous TIMESTAMP, whatever the other trees on the command line carry."""
+    import calendar
+    tz = case['tz']
+    old_tz = os.environ.get('TZ', 'UTC')
+    with common.Scratch('vf-c11m-') as d:
+        try:
+            set_tz(tz)
+            trees = []
+            base = 1500000000
+            # (TIMESTAMPs a day apart; everything in a tree is older than its own)
+            stamps = {'A': base + 86400, 'B': base + 3 * 86400, 'C': base + 2 * 86400}
+            names = case['order']
+            for nm in sorted(set(names)):
+                root = os.path.join(d, nm)
+                os.makedirs(os.path.join(root, 'sub'))
+                for pth, data in (('f1', b'one'), ('sub/f2', b'two'), ('sub/f3', b'333')):
+                    with open(os.path.join(root, pth), 'wb') as f:
+                        f.write(data + nm.encode())
+                    os.utime(os.path.join(root, pth), (base, base))
+                if cli(['create', '--hashes', 'SHA256', '-t', root]) != 0:
+                    ctx.count('harness_error')
+                    return
+                mp = os.path.join(root, 'Manifest')
+                with open(mp) as f:
+                    lines = f.read().split('\n')
+                ts = time.strftime('%Y-%m-%dT%H:%M:%SZ', time.gmtime(stamps[nm]))
+                lines = ['TIMESTAMP ' + ts if ln.startswith('TIMESTAMP ') else ln
+                         for ln in lines]
+                with open(mp, 'w') as f:
+                    f.write('\n'.join(lines))
+                trees.append(root)
+            # a same-size change in every tree, half a day after that tree's TIMESTAMP
+            changed = {}
+            for nm in sorted(set(names)):
+                p = os.path.join(d, nm, 'sub', 'f2')
+                with open(p, 'rb') as f:
+                    old = f.read()
+                new = bytes((b + 3) % 256 for b in old)
+                with open(p, 'wb') as f:
+                    f.write(new)
+                mt = stamps[nm] + 43200
+                os.utime(p, (mt, mt))
+                changed[nm] = 'sub/f2'
+            ctx.case(sig=('multi-inc', tz, tuple(names)), case=case, klass='multi-inc')
+            ctx.count('multi_tree_incremental_runs')
+            rc = cli(['update', '--incremental', '--hashes', 'SHA256'] +
+                     [os.path.join(d, nm) for nm in names])
+            if rc != 0:
+                ctx.violation('incremental-fails:multi-tree', 'update --incremental over '
+                              '%r -> %r' % (names, rc), case)
+                return
+            for nm in sorted(set(names)):
+                findings = update_post.check(os.path.join(d, nm), 'Manifest', '',
+                                             ['SHA256'])
+                stale = [f for f in findings if f[1] == changed[nm]]
+                if stale:
+                    ctx.violation('incremental-differs-from-full:multi-tree',
+                                  '`update --incremental %s`: the file changed in tree %s '
+                                  'after its own TIMESTAMP was left stale (%r) under '
+                                  'TZ=%s' % (' '.join(names), nm, stale[:2], tz), case)
+                    return
+        finally:
+            set_tz(old_tz)
+
+
+def run_multi(u, ctx):
+    orders = [['A', 'B'], ['B', 'A'], ['A', 'C', 'B'], ['B', 'C', 'A'], ['A', 'A', 'B']]
+    case = {'kind': 'multi', 'tz': TZS[u['i'] % len(TZS)],
+            'order': orders[u['i'] % len(orders)]}
+    exec_multi(ctx, case)
+    ctx.sample(case, 'multi')
+
+
 def run_unit(u, ctx):
-    {'hist': run_hist, 'inject': run_inject}[u['k']](u, ctx)
+    {'hist': run_hist, 'inject': run_inject, 'multi': run_multi}[u['k']](u, ctx)
 
 
 def replay(case, ctx):
     if case['kind'] == 'inject':
         run_inject_case(ctx, case)
+    elif case['kind'] == 'multi':
+        exec_multi(ctx, case)
     else:
         with common.Scratch('vf-c11-') as d:
             run_history(ctx, d, case)
